@@ -38,7 +38,7 @@ class EEMSRead(Command):
     def execute(self, **kwargs):
         path = kwargs["InFileName"]
         variable_name = kwargs["InFieldName"]
-        data_type = kwargs.get("DataType", "Float")
+        data_type = kwargs.get("DataType", numpy.float64)
 
         with Dataset(kwargs["InFileName"], "r") as dataset:
             if kwargs["InFieldName"] not in dataset.variables:
@@ -63,7 +63,7 @@ class EEMSRead(Command):
             fill_value=999999 if data_type in (int, numpy.uint) else None,
         )
 
-        if kwargs.get("DataType", "Float") == "Fuzzy":
+        if self.get_argument_value("DataType", "Float") == "Fuzzy":
             fuzzy_pad = 0.01 * (FUZZY_MAX - FUZZY_MIN)
 
             if data.max() > FUZZY_MAX + fuzzy_pad or data.min() < FUZZY_MIN - fuzzy_pad:
@@ -77,11 +77,11 @@ class EEMSRead(Command):
         if "MissingValue" in kwargs:
             missing_value = (
                 int(kwargs["MissingValue"])
-                if numpy.issubdtype(result.mask.dtype, int)
+                if numpy.issubdtype(result.dtype, numpy.integer)
                 else float(kwargs["MissingValue"])
             )
 
-            self.result.mask = numpy.where(result.data == missing_value, True, result.mask or False)
+            result.mask = numpy.where(result.data == missing_value, True, numpy.ma.getmaskarray(result))
 
         result.data[result.mask] = result.fill_value
 
